@@ -1457,6 +1457,26 @@ class Exec:
                         if m > 0 and sx.const() is None and self._lengthlike(sx):
                             p.env[k] = self._divmod(p, I, sx, m + 1, False)
                             return
+                    # x & (a mask whose upper bits are clear, e.g. ~3U zero-extended to 64 bits): the length narrowed to kk bits, then rounded down
+                    if m is not None and m > 0 and x.const() is None and w == 64:
+                        kk = m.bit_length()
+                        low = m ^ ((1 << kk) - 1)
+                        if 8 <= kk < w and (low & (low + 1)) == 0 and low < 4096:
+                            sx = self.subst(p, x)
+                            if sx.const() is None and self._lengthlike(sx):
+                                ub = self._upper(p, sx)
+                                if ub is not None and ub < (1 << kk):
+                                    base = sx
+                                else:
+                                    p.events.append(("narrowing", I.id, kk, repr(sx), bool(getattr(p, "cut", False))))
+                                    p.mods[(kk, repr(sx))] = sx
+                                    base = Lf.s(("mod", kk, repr(sx)))
+                                if low == 0:
+                                    p.env[k] = base
+                                else:
+                                    q_ = self._divmod(p, I, base, low + 1, True)
+                                    p.env[k] = Lf({s_: c * (low + 1) for s_, c in q_.items()})
+                                return
                     # x & ~(2^k - 1): the length rounded down to a multiple of 2^k
                     if m is not None and x.const() is None:
                         inv = (~m) & ((1 << w) - 1)
